@@ -20,18 +20,38 @@ checks, for every solve call and for the walk of every class after every change,
 each registration exactly once), order (base before subclass, registration order within a class), None-skipping,
 threading, in_profile = last pre-processor output, post-processors leave the unit's own outgoing state alone,
 pre < own < post.
+
+Round 2 (seeded changes C18-5..7) added:
+  * the library's roll pass classes (DeformationUnit, BaseRollPass, SymmetricRollPass, TwoRollPass, ThreeRollPass) and
+    CoolingPipe are part of the hierarchy; the registrations the LIBRARY makes (the auto-rotator factory on BaseRollPass)
+    are entries of the oracle's registration log and of the model (preamble lines derived from the real class dicts);
+    classes below TwoRollPass are instantiated as real roll passes (groove, roll, gap) and solved - alone and inside
+    sequences - with registrations on their base classes, on BaseRollPass and below.  A library factory is observed
+    with sys.monitoring on its code object (nothing of the library is replaced), the processor it returns through an
+    instance attribute on that (transient) object;
+  * unit state the factories look at changes BETWEEN solves of the same unit (`setflag`; for a roll pass: its
+    rotation), so a factory answers differently at a later solve;
+  * oracle clauses for units inside sequences (what a member receives, a member's own outgoing state after its
+    solve) and for processors that run without their factory having been asked at this solve;
+  * an exception raised from inside pyroll while solving is an oracle finding (`solve-raised`), not a crash.
 """
 import collections
+import inspect
 import logging
+import sys
 
 ID = "C18"
 LEAN_MODULES = ["PyrollProps.C18"]
 MODEL = "c18"                                   # lean/Drivers/c18.lean
 MODEL_MODULES = ["PyrollModel.ProcDriver"]
-RULE = ("random histories over real class hierarchies built with type() below Unit/PassSequence/Transport/Rotator "
-        "(MRO length up to ~10, diamonds, non-unit mix-ins; 15% of the cases contain a class whose __init_subclass__ does not call "
-        "super() = malformed stream): class definitions interleaved with register/remove/clear on any class and with "
-        "solves of leaf units and of sequences (re-solves included); factories always/never/unit-dependent, processors "
+RULE = ("random histories over real class hierarchies built with type() below Unit/PassSequence/Transport/Rotator/"
+        "DiskElementUnit/DeformationUnit/CoolingPipe/TwoRollPass/ThreeRollPass "
+        "(MRO length up to ~14, diamonds, non-unit mix-ins; 15% of the cases contain a class whose __init_subclass__ does not call "
+        "super() = malformed stream): class definitions interleaved with register/remove/clear on any class (library "
+        "classes included: the bases and subclasses of BaseRollPass around the library's own auto-rotator registration) and with "
+        "solves of leaf units and of sequences, re-solves of the same unit after its state (flag; rotation of a roll "
+        "pass) changed included; 30% of the histories contain real two-roll passes (groove, roll, gap, real workpiece) "
+        "solved alone and as members of sequences; factories always/never/unit-state-dependent, processors "
         "in-place/copying/identity. A case is non-trivial when some solve consulted >= 2 factories; distinct by the op lines.")
 ASSUMPTIONS = [
     "CPython class semantics (C3 MRO - the real __mro__ is an input of the model -, attribute lookup along the MRO, "
@@ -40,10 +60,76 @@ ASSUMPTIONS = [
     "hierarchies in which a user class defines __init_subclass__ without calling super() are outside the contract of the "
     "scope/order theorems (hypothesis OwnLists); model and code are still compared on them (see notes/C18.md, O1)",
     "the model is tied to the code by sampled differential runs (every output line compared)",
+    "the library's own factories (auto-rotator) are observed with sys.monitoring on their code objects and their "
+    "processors through an instance attribute `solve` on the returned object; the model treats such a factory as "
+    "'answers by the unit's flag' (flag of a roll pass = it has a rotation) with a copying processor - what the rotator "
+    "does to the geometry is C14's business",
+    "ThreeRollPass-derived and abstract classes take part in the class-level (walk) checks only; a sequence of the "
+    "harness holds at most one real roll pass",
 ]
 
 NAMES = {"p": "pre_processors", "q": "post_processors"}
-LIBNAMES = ["Unit", "PassSequence", "DiskElementUnit", "Transport", "Rotator"]
+LIBNAMES = ["Unit", "PassSequence", "DiskElementUnit", "Transport", "Rotator",
+            "DeformationUnit", "BaseRollPass", "SymmetricRollPass", "TwoRollPass", "ThreeRollPass", "CoolingPipe"]
+(C_UNIT, C_SEQ, C_DEU, C_TRANSPORT, C_ROTATOR, C_DEFU, C_BRP, C_SRP, C_TWO, C_THREE, C_COOL) = range(11)
+M0 = len(LIBNAMES)            # id of the first class a history defines
+LIBFAC0 = 900                 # factory / processor ids of the registrations the library itself makes
+
+
+class HarnessError(RuntimeError):
+    """raised by the harness about its own mistakes (never an oracle finding)"""
+
+
+def _raised_by_harness(e):
+    """did this exception come out of harness code (this file) rather than out of pyroll?"""
+    seen = 0
+    while e is not None and seen < 10:
+        if isinstance(e, HarnessError):
+            return True
+        tb = e.__traceback__
+        last = None
+        while tb is not None:
+            last = tb
+            tb = tb.tb_next
+        if last is not None and last.tb_frame.f_code.co_filename == __file__:
+            return True
+        e = e.__cause__
+        seen += 1
+    return False
+
+
+# ---- observation of library factories: sys.monitoring on their code objects (python >= 3.12) -------------------
+_MON = {"tool": None, "active": None}
+
+
+def _cb_start(code, offset):
+    r = _MON["active"]
+    if r is not None:
+        r.mon_start(code, sys._getframe(1))
+
+
+def _cb_return(code, offset, retval):
+    r = _MON["active"]
+    if r is not None:
+        r.mon_return(code, retval)
+
+
+def _mon_tool():
+    """tool id of the harness (claimed once per process), None if the interpreter has no sys.monitoring"""
+    mon = getattr(sys, "monitoring", None)
+    if mon is None:
+        return None
+    if _MON["tool"] is None:
+        for tid in (3, 4):
+            try:
+                mon.use_tool_id(tid, "verif-c18")
+            except ValueError:
+                continue
+            mon.register_callback(tid, mon.events.PY_START, _cb_start)
+            mon.register_callback(tid, mon.events.PY_RETURN, _cb_return)
+            _MON["tool"] = tid
+            break
+    return _MON["tool"]
 
 
 def _sub(a, b):
@@ -57,7 +143,7 @@ def _quiet():
 
 
 class Ev:
-    __slots__ = ("t", "kind", "w", "f", "p", "res", "recv", "ret", "recv_marks", "ret_marks", "unit_ok")
+    __slots__ = ("t", "kind", "w", "f", "p", "res", "recv", "ret", "recv_marks", "ret_marks", "unit_ok", "asked")
 
     def __init__(self, t, kind, **kw):
         self.t = t
@@ -82,6 +168,12 @@ class Rec:
         self.out_marks_before_post = None
         self.out_obj_before_post = None
         self.ret = None
+        self.ret_marks = None
+        self.out_marks_at_leave = None
+        self.flag = None          # the unit's flag while this solve ran
+        self.children = []        # records of the members solved inside this solve, in order
+        self.parent_iter = None   # iteration of the enclosing solve in which this one ran
+        self.parent_in_marks = None   # marks of the enclosing unit's in_profile when this solve was entered
         self.later = False        # the unit's class was defined after a registration that applies to it
         self.sibling = False      # a registration exists on a sibling class (common made base, not a base of ours)
 
@@ -94,6 +186,8 @@ class Proc:
         self.p = p
         self.label = f"proc{p}"
         self.consult = ev
+        self.rec = None           # the solve call whose consultation created this processor
+        self.used = False
 
     def solve(self, profile):
         return self.real.on_proc(self, profile)
@@ -119,6 +213,7 @@ class Real:
         self.useq = []
         self.uid = {}
         self.listed = set()
+        self.members = {}         # sequence unit id -> member unit ids
         self.named = []
         self.objs = {}
         self.keep = []
@@ -130,11 +225,65 @@ class Real:
         self.reglog = []          # the ORACLE's registration log: dicts(serial, w, cls, f)
         self.malformed = False    # a class with a swallowing __init_subclass__ exists
         self.problems = []        # (key, text) found by the oracle so far
+        self.named_deformed = []  # per named profile: did it pass a roll pass (geometry no longer the fresh one)?
+        self.foreign_depth = 0    # > 0 while a library processor (a real unit) solves itself
+        self.pending = []         # library factory calls entered and not yet returned: (code, argument)
+        self.flag_changed = set() # units whose flag changed since their last solve
+        # registrations the LIBRARY itself made (the auto-rotator on BaseRollPass): part of the log, serial = scan order
+        self.libfac = {}          # factory id -> the library's factory object
+        self.libreg = []          # (w, class id, factory id)
+        self.codefid = {}         # code object -> factory id
+        self.unobservable = set() # library factory ids whose calls cannot be observed
+        for ci, c in enumerate(self.lib):
+            for w, n in NAMES.items():
+                for x in c.__dict__.get(n) or ():
+                    f = self.fid.get(id(x))
+                    if f is None:
+                        f = LIBFAC0 + len(self.libfac)
+                        self.libfac[f] = x
+                        self.fobj[f] = x
+                        self.fid[id(x)] = f
+                        self.fdef[f] = ("flag", f)     # what the model assumes of it: answers by the unit's flag
+                        self.beh[f] = "f"              # ... with a processor that returns a new profile
+                        code = getattr(x, "__code__", None)
+                        if code is None or not code.co_argcount:
+                            self.unobservable.add(f)
+                        else:
+                            self.codefid[code] = f
+                    self.serial += 1
+                    self.libreg.append((w, ci, f))
+                    self.reglog.append({"serial": self.serial, "w": w, "cls": c, "f": f})
+        self.tool = _mon_tool() if self.codefid else None
+        if self.codefid and self.tool is None:
+            self.unobservable.update(self.codefid.values())
+        if self.tool is not None:
+            mon = sys.monitoring
+            _MON["active"] = self
+            for code in self.codefid:
+                mon.set_local_events(self.tool, code, mon.events.PY_START | mon.events.PY_RETURN)
 
     # ---- bookkeeping ---------------------------------------------------------------------
     def restore(self):
+        if self.tool is not None:
+            for code in self.codefid:
+                sys.monitoring.set_local_events(self.tool, code, 0)
+            if _MON["active"] is self:
+                _MON["active"] = None
         for c, n, l in self.saved:
             c.__dict__[n][:] = l
+
+    def is_rollpass_class(self, c):
+        return _sub(c, self.pr.BaseRollPass)
+
+    def solvable(self, c):
+        """can the harness make and solve instances?  not abstract classes; ThreeRollPass (it would need an own
+        family of incoming profiles) takes part in the class-level checks only"""
+        return self.is_unit_class(c) and not inspect.isabstract(c) and not _sub(c, self.pr.ThreeRollPass)
+
+    def gives(self, f, uid):
+        """what factory f of the harness answers for unit uid in its CURRENT state"""
+        kind, _p = self.fdef[f]
+        return kind == "always" or (kind == "flag" and uid >= 0 and self.uflag[uid])
 
     def tick(self):
         self.clock += 1
@@ -175,6 +324,14 @@ class Real:
             tail = [j for j, k in enumerate(self.lib) if k in c.__mro__[1:]]
             tail.sort(key=lambda j: c.__mro__.index(self.lib[j]))
             pairs.append((f"class {self.L(tail)} {isub} {body}", f"c{i}"))
+        for f in self.libfac:
+            pairs.append((f"fac {f} flag {f}", "ok"))
+            pairs.append((f"beh {f} f", "ok"))
+            if f in self.unobservable and ctx is not None:
+                ctx.tie_breaks.append(f"library factory {getattr(self.libfac[f], '__name__', '?')} cannot be observed "
+                                      "(no python function / no sys.monitoring): units in its scope are not solved")
+        for w, ci, f in self.libreg:
+            pairs.append((f"reg {w} {ci} {f}", "ok"))
         return pairs
 
     # ---- instrumentation (namespace of every class the harness creates) --------------------
@@ -203,6 +360,12 @@ class Real:
     def on_solve(self, unit, in_profile):
         uid = self.uid[id(unit)]
         rec = Rec(uid, unit, in_profile, self.useq[uid])
+        rec.flag = self.uflag[uid]
+        if self.stack:
+            parent = self.stack[-1]
+            rec.parent_iter = parent.iters
+            rec.parent_in_marks = tuple(getattr(parent.unit.in_profile, "marks", ()))
+            parent.children.append(rec)
         self.stack.append(rec)
         self.trace.append(f"E {uid} #{self.oid(in_profile)}")
         try:
@@ -210,7 +373,10 @@ class Real:
         finally:
             self.stack.pop()
         rec.ret = ret
+        rec.ret_marks = tuple(getattr(ret, "marks", ()))
         ip, op = unit.in_profile, unit.out_profile
+        rec.out_marks_at_leave = tuple(getattr(op, "marks", ()))
+        self.flag_changed.discard(uid)
         self.trace.append(f"L {uid} #{self.oid(ret)} #{self.oid(ip)} #{self.oid(op)} "
                           f"{self.show_marks(ret)} {self.show_marks(ip)} {self.show_marks(op)}")
         self.records.append(rec)
@@ -220,7 +386,7 @@ class Real:
     def on_iter(self, unit):
         rec = self.stack[-1]
         if rec.unit is not unit:
-            raise RuntimeError("harness: iteration of a unit that is not being solved")
+            raise HarnessError("harness: iteration of a unit that is not being solved")
         rec.iters += 1
         rec.ev.append(Ev(self.tick(), "O"))
         if rec.iters == 1:
@@ -234,30 +400,105 @@ class Real:
     def phase(self, rec):
         return "p" if rec.iters == 0 else "q"
 
-    def on_factory(self, f, unit):
-        if not self.stack:
-            raise RuntimeError("harness: factory consulted outside a solve")
-        rec = self.stack[-1]
-        w = self.phase(rec)
+    def snapshot_out_before_post(self, rec, w):
+        """the unit's outgoing state when the first thing of the post-processing happens"""
         if w == "q" and rec.out_obj_before_post is None:
             rec.out_obj_before_post = rec.unit.out_profile
-            rec.out_marks_before_post = tuple(rec.unit.out_profile.marks)
-        kind, p = self.fdef[f]
+            rec.out_marks_before_post = tuple(getattr(rec.unit.out_profile, "marks", ()))
+
+    def on_factory(self, f, unit):
+        if not self.stack:
+            raise HarnessError("harness: factory consulted outside a solve")
         uid = self.uid.get(id(unit), -1)
-        if kind == "always":
-            give = True
-        elif kind == "never":
-            give = False
-        else:
-            give = uid >= 0 and self.uflag[uid]
+        if uid < 0 and self.foreign_depth:
+            # a processor the LIBRARY created (the auto-rotator, itself a unit) is solving itself and asks the
+            # factories registered on its own classes: the harness's factories have nothing for units they do not know
+            return None
+        rec = self.stack[-1]
+        w = self.phase(rec)
+        self.snapshot_out_before_post(rec, w)
+        _kind, p = self.fdef[f]
+        give = self.gives(f, uid)
         ev = Ev(self.tick(), "C", w=w, f=f, p=p if give else None, unit_ok=unit is rec.unit)
         rec.ev.append(ev)
         self.trace.append(f"C {w} {f} {uid}")
-        return Proc(self, p, ev) if give else None
+        if not give:
+            return None
+        proc = Proc(self, p, ev)
+        proc.rec = rec
+        return proc
+
+    # ---- a factory of the library (observed through sys.monitoring, see _cb_start/_cb_return) -----------------
+    def mon_start(self, code, frame):
+        try:
+            arg = frame.f_locals.get(code.co_varnames[0])
+        except Exception:
+            arg = None
+        self.pending.append((code, arg))
+
+    def mon_return(self, code, retval):
+        arg = None
+        while self.pending:
+            c, a = self.pending.pop()
+            if c is code:
+                arg = a
+                break
+        f = self.codefid.get(code)
+        if f is None or not self.stack or self.foreign_depth:
+            return
+        rec = self.stack[-1]
+        w = self.phase(rec)
+        self.snapshot_out_before_post(rec, w)
+        uid = self.uid.get(id(arg), -1)
+        ev = Ev(self.tick(), "C", w=w, f=f, p=f if retval is not None else None, unit_ok=arg is rec.unit)
+        rec.ev.append(ev)
+        self.trace.append(f"C {w} {f} {uid}")
+        if retval is None:
+            return
+        d = getattr(retval, "__dict__", None)
+        if d is None:
+            self.unobservable.add(f)
+            return
+        d["_c18_consult"] = (ev, rec, [False])
+        if "_c18_solve" not in d:
+            real = self
+            orig = retval.solve
+
+            def solve(profile, _proc=retval, _orig=orig, _f=f):
+                return real.on_lib_proc(_proc, _f, _orig, profile)
+            d["_c18_solve"] = True
+            d["solve"] = solve
+
+    def on_lib_proc(self, proc, f, orig, profile):
+        if _MON["active"] is not self or not self.stack:
+            return orig(profile)
+        rec = self.stack[-1]
+        w = self.phase(rec)
+        self.snapshot_out_before_post(rec, w)
+        ev0, rec0, used = proc.__dict__["_c18_consult"]
+        asked = rec0 is rec and not used[0]
+        used[0] = True
+        recv_marks = tuple(getattr(profile, "marks", ()))
+        self.foreign_depth += 1
+        try:
+            ret = orig(profile)
+        finally:
+            self.foreign_depth -= 1
+        self.serial += 1
+        mark = (f"p{f}", self.serial)
+        # instrumentation (like the own-solution mark): what the library's processor returned carries its mark
+        ret.marks = tuple(getattr(ret, "marks", ())) + (mark,)
+        rec.ev.append(Ev(self.tick(), "P", w=w, p=f, f=f, recv=profile, ret=ret, recv_marks=recv_marks,
+                         ret_marks=tuple(ret.marks), res=mark, asked=asked))
+        self.trace.append(f"P {w} {f} #{self.oid(profile)} #{self.oid(ret)}")
+        return ret
 
     def on_proc(self, proc, profile):
         rec = self.stack[-1]
         w = self.phase(rec)
+        self.snapshot_out_before_post(rec, w)
+        asked = proc.rec is rec and not proc.used
+        proc.used = True
         b = self.beh[proc.p]
         self.serial += 1
         mark = (f"p{proc.p}", self.serial)
@@ -271,7 +512,7 @@ class Real:
         else:
             ret = profile
         rec.ev.append(Ev(self.tick(), "P", w=w, p=proc.p, f=proc.consult.f, recv=profile, ret=ret, recv_marks=recv_marks,
-                         ret_marks=tuple(ret.marks), res=mark))
+                         ret_marks=tuple(ret.marks), res=mark, asked=asked))
         self.trace.append(f"P {w} {proc.p} #{self.oid(profile)} #{self.oid(ret)}")
         return ret
 
@@ -342,43 +583,111 @@ class Real:
         if n == "unit":
             _, c, flag = op
             cls = self.classes[c]
-            kw = {"duration": 0}
-            if _sub(cls, self.pr.Rotator):
-                kw["rotation"] = 0
-            u = cls(label=f"u{len(self.units)}", **kw)
+            if not self.solvable(cls):
+                raise HarnessError("harness: unit of a class that is abstract / not solved by the harness")
+            u = cls(label=f"u{len(self.units)}", **self.unit_kwargs(cls, flag))
             return [(f"unit {c} {flag}", self.add_unit(u, flag, False))]
+        if n == "setflag":
+            # the unit state the unit-dependent factories look at changes between two solves of the same unit
+            # (for a roll pass: its rotation, which is what the library's auto-rotator factory decides from)
+            _, u, flag = op
+            if bool(flag) != self.uflag[u]:
+                self.flag_changed.add(u)
+            self.uflag[u] = bool(flag)
+            if self.is_rollpass_class(type(self.units[u])):
+                self.units[u].rotation = 90 if flag else 0
+            return [(f"setflag {u} {int(bool(flag))}", "ok")]
         if n == "seq":
             _, c, flag, subs = op
             cls = self.classes[c]
             for s in subs:
                 if s in self.listed or self.useq[s]:
-                    raise RuntimeError("harness: sequence member already listed / not a leaf")
+                    raise HarnessError("harness: sequence member already listed / not a leaf")
+            if sum(1 for s in subs if self.is_rollpass_class(type(self.units[s]))) > 1:
+                raise HarnessError("harness: more than one roll pass in a sequence")
             kw = {"duration": 0}
             if _sub(cls, self.pr.Rotator):
                 kw["rotation"] = 0
             u = cls([self.units[s] for s in subs], label=f"u{len(self.units)}", **kw)
             self.listed.update(subs)
+            self.members[len(self.units)] = list(subs)
             return [(f"seq {c} {flag} {self.L(subs)}", self.add_unit(u, flag, True))]
         if n == "newprof":
-            p = self.pr.Profile.round(radius=1, marks=())
+            # a real workpiece (the roll passes need geometry, temperature, flow stress), marks = what the processors write
+            p = self.pr.Profile.round(diameter=30e-3, temperature=1400, material="steel", length=1, strain=0,
+                                      flow_stress=50e6, marks=())
             self.named.append(p)
+            self.named_deformed.append(False)
             return [("newprof", f"#{self.oid(p)}")]
         if n in ("solve", "solveseq"):
             _, u, k = op
             unit = self.units[u]
-            problems = self.check_walk_of(type(unit))
-            if any(key.startswith("walk-foreign") for key, _ in problems):
-                # a factory the harness does not own would be called with our unit: do not run it
+            involved = [unit] + [self.units[m] for m in self.members.get(u, ())]
+            has_pass = any(self.is_rollpass_class(type(x)) for x in involved)
+            if has_pass and self.named_deformed[k]:
+                raise HarnessError("harness: a roll pass is fed only with a workpiece of the fresh geometry")
+            why = None
+            for x in involved:
+                problems = self.check_walk_of(type(x))
+                if any(key.startswith("walk-foreign") for key, _ in problems):
+                    # a factory the harness does not own would be called with our unit: do not run it
+                    why = "foreign-factory-in-walk"
+                lf = [self.fid.get(id(f)) for w in "pq" for f in self.walk_of(type(x), w)]
+                lf = [f for f in lf if f in self.libfac]
+                if any(not any(r["f"] == f and _sub(type(x), r["cls"]) for r in self.reglog) for f in lf):
+                    # a library factory (written for roll passes) would be called with a unit outside its scope
+                    why = why or "library-factory-outside-its-scope-in-walk"
+                if any(f in self.unobservable for f in lf):
+                    why = why or "unobservable-library-factory-in-walk"
+            if why:
                 self.named.append(self.named[k])
-                return [(f"{n} {u} {k}", "not-run:foreign-factory-in-walk")]
+                self.named_deformed.append(self.named_deformed[k])
+                return [(f"{n} {u} {k}", "not-run:" + why)]
             self.trace = []
-            ret = unit.solve(self.named[k])
+            self.pending = []
+            n_rec = len(self.records)
+            try:
+                ret = unit.solve(self.named[k])
+            except Exception as e:
+                if _raised_by_harness(e):
+                    raise
+                # the code under test raised while solving (the harness's units, factories and processors never do)
+                del self.stack[:]
+                self.foreign_depth = 0
+                cause = e
+                while cause.__cause__ is not None:
+                    cause = cause.__cause__
+                self.problems.append(("solve-raised", f"u{u} ({type(unit).__mro__[1].__name__}-based): solve raised "
+                                                      f"{type(cause).__name__}: {str(cause)[:160]}"))
+                self.named.append(self.named[k])
+                self.named_deformed.append(self.named_deformed[k])
+                line = f"solve {u} {k}" if n == "solve" else f"solveseq {u} 1 {k}"
+                return [(line, f"raised:{type(cause).__name__}")]
             self.named.append(ret)
+            self.named_deformed.append(self.named_deformed[k] or has_pass)
             top = self.records[-1]
+            if top.unit is not unit or len(self.records) == n_rec:
+                raise HarnessError("harness: the outermost record is not the solved unit's")
             if n == "solve":
                 return [(f"solve {u} {k}", ";".join(self.trace))]
             return [(f"solveseq {u} {top.iters} {k}", ";".join(self.trace))]
         raise ValueError(op)
+
+    def unit_kwargs(self, cls, flag):
+        pr = self.pr
+        if self.is_rollpass_class(cls):
+            # a real two-roll pass; flag = "has a rotation" (what the auto-rotator factory of the library looks at)
+            return {"roll": pr.Roll(groove=pr.CircularOvalGroove(depth=8e-3, r1=6e-3, r2=40e-3), nominal_radius=160e-3,
+                                    rotational_frequency=1),
+                    "gap": 2e-3, "rotation": 90 if flag else 0}
+        kw = {"duration": 0}
+        if _sub(cls, pr.Rotator):
+            kw["rotation"] = 0
+        return kw
+
+    def walk_of(self, cls, w):
+        inst = object.__new__(cls)
+        return list(cls._yield_pre_processors(inst) if w == "p" else cls._yield_post_processors(inst))
 
     def add_unit(self, u, flag, is_seq):
         self.uid[id(u)] = len(self.units)
@@ -397,12 +706,12 @@ class Real:
             own = self.classes[touched].__dict__.get(NAMES[w])
             out.append((f"own {w} {touched}", "_" if own is None else self.L(self.fids(own))))
         for c, cls in enumerate(self.classes):
-            if not self.is_unit_class(cls):
-                continue
-            self.check_walk_of(cls)
-            inst = object.__new__(cls)
-            out.append((f"yield p {c}", self.L(self.fids(cls._yield_pre_processors(inst)))))
-            out.append((f"yield q {c}", self.L(self.fids(cls._yield_post_processors(inst)))))
+            if not self.is_unit_class(cls) or inspect.isabstract(cls):
+                continue              # (an abstract class - BaseRollPass, SymmetricRollPass - has no instances)
+            walks = {}
+            self.check_walk_of(cls, walks)
+            out.append((f"yield p {c}", self.L(self.fids(walks["p"]))))
+            out.append((f"yield q {c}", self.L(self.fids(walks["q"]))))
         return out
 
     # ---- the independent oracle: the property as stated ------------------------------------
@@ -442,6 +751,14 @@ class Real:
         if self.malformed:
             return []
         exp = self.applicable(cls, w)
+        if exp:
+            # shortcut: one particular order that satisfies the statement (classes by MRO position, bases first, each
+            # class's registrations in log order); everything else goes through the general comparison below
+            mro = cls.__mro__
+            if list(obs) == [r["f"] for r in sorted(exp, key=lambda r: (-mro.index(r["cls"]), r["serial"]))]:
+                return []
+        elif not obs:
+            return []
         co, ce = collections.Counter(obs), collections.Counter(r["f"] for r in exp)
         name = NAMES[w]
         if co != ce:
@@ -465,11 +782,13 @@ class Real:
                      f"{[(r['cls'].__name__, r['f']) for r in exp]}")]
         return []
 
-    def check_walk_of(self, cls):
+    def check_walk_of(self, cls, walks=None):
         probs = []
         inst = object.__new__(cls)
         for w, meth in (("p", cls._yield_pre_processors), ("q", cls._yield_post_processors)):
             lst = list(meth(inst))
+            if walks is not None:
+                walks[w] = lst
             if any(id(x) not in self.fid for x in lst):
                 probs.append((f"walk-foreign-{NAMES[w]}",
                               f"{cls.__name__} yields factories registered on unrelated library classes: "
@@ -497,6 +816,13 @@ class Real:
             probs.append(("processor-during-own-solution", f"u{rec.uid}: processors ran between the iterations"))
         for w, evs in (("p", pre), ("q", post)):
             cons = [e for e in evs if e.kind == "C"]
+            # what runs at THIS solve is what the factories return at THIS solve: a processor whose factory was not
+            # asked now (kept from an earlier solve of the unit) must not run
+            stale = [e.p for e in evs if e.kind == "P" and not e.asked]
+            if stale:
+                probs.append((f"{NAMES[w]}-processor-run-but-factory-not-asked-at-this-solve",
+                              f"u{rec.uid}: processors {stale} ran although their factories were not consulted at this "
+                              f"solve (consulted: {[e.f for e in cons]})"))
             if any(not e.unit_ok for e in cons):
                 probs.append(("factory-got-wrong-unit", f"u{rec.uid}: a factory was called with another unit"))
             probs += self.check_sequence("", cls, w, [e.f for e in cons],
@@ -506,6 +832,22 @@ class Real:
             got = [e.p for e in evs if e.kind == "P"]
             if want != got:
                 probs.append((f"{NAMES[w]}-not-all-run", f"u{rec.uid}: processors created {want}, solved {got}"))
+            # factories that return nothing FOR THE UNIT AS IT IS NOW are skipped, the others' processors run
+            # (the harness's own factories are functions of their kind and the unit's flag; independent of the
+            # consultations recorded above)
+            if not self.malformed:
+                exp = [r["f"] for r in self.applicable(cls, w) if r["f"] not in self.libfac]
+                now = collections.Counter(self.fdef[f][1] for f in exp if
+                                          self.fdef[f][0] == "always" or (self.fdef[f][0] == "flag" and rec.flag))
+                ran = collections.Counter(e.p for e in evs if e.kind == "P" and e.p not in self.libfac)
+                if ran - now:
+                    probs.append((f"{NAMES[w]}-processor-of-factory-that-returns-nothing-now",
+                                  f"u{rec.uid}: processors {sorted((ran - now).elements())} ran although no applicable "
+                                  f"factory returns them for the unit's current state (flag={int(bool(rec.flag))})"))
+                elif now - ran:
+                    probs.append((f"{NAMES[w]}-processor-not-run-although-factory-returns-one",
+                                  f"u{rec.uid}: processors {sorted((now - ran).elements())} did not run although their "
+                                  f"factories return them for the unit's current state (flag={int(bool(rec.flag))})"))
         # threading of the pre-processors and the incoming profile
         cur, cur_marks = rec.inp, rec.inp_marks
         for e in (e for e in pre if e.kind == "P"):
@@ -554,6 +896,38 @@ class Real:
             if tuple(rec.ret.marks) != tuple(op.marks):
                 probs.append(("returned-profile-not-out-state",
                               f"u{rec.uid}: without post-processors the returned profile differs from out_profile"))
+        # units solved INSIDE this one (members of a sequence): the same rules hold - what a member returns (the
+        # output of its post-processors) is what its successor and the successor's pre-processors receive, and
+        # nobody else's processors write into a member's own outgoing state
+        last_iter = []
+        for it in sorted({c.parent_iter for c in rec.children}):
+            group = [c for c in rec.children if c.parent_iter == it]
+            last_iter = group
+            prev = None
+            for ch in group:
+                if prev is None:
+                    if ch.inp_marks != ch.parent_in_marks:
+                        probs.append(("sequence-first-member-input-not-in-profile",
+                                      f"u{rec.uid}: its first member u{ch.uid} did not receive the sequence's incoming "
+                                      f"profile (the output of the sequence's last pre-processor)"))
+                else:
+                    if ch.inp is prev.unit.out_profile or ch.inp is prev.unit.in_profile:
+                        probs.append(("sequence-member-receives-predecessor-own-state",
+                                      f"u{rec.uid}: member u{ch.uid} was handed the own "
+                                      f"{'out' if ch.inp is prev.unit.out_profile else 'in'}_profile object of its "
+                                      f"predecessor u{prev.uid} instead of the profile that unit's solve returned"))
+                    if ch.inp_marks != prev.ret_marks:
+                        probs.append(("sequence-member-input-not-predecessor-return",
+                                      f"u{rec.uid}: member u{ch.uid} received {[t for t, _ in ch.inp_marks]}, its "
+                                      f"predecessor u{prev.uid} returned {[t for t, _ in prev.ret_marks]} (output of "
+                                      f"its post-processors)"))
+                prev = ch
+        for ch in last_iter:
+            if tuple(getattr(ch.unit.out_profile, "marks", ())) != ch.out_marks_at_leave:
+                probs.append(("member-out-state-changed-after-its-solve",
+                              f"u{rec.uid}: out_profile of member u{ch.uid} carried "
+                              f"{[t for t, _ in ch.out_marks_at_leave]} when its solve returned and "
+                              f"{[t for t, _ in ch.unit.out_profile.marks]} at the end of the sequence's solve"))
         self.problems += probs
 
 
@@ -612,25 +986,54 @@ def gen_and_run(rng, n_ops, malformed, counter=None):
             do(("fac", f, kind, p))
             do(("beh", p, rng.choice("iffs")))
         do(("newprof",))
-        unit_roots = [0, 0, 0, 3, 4, 2]
+        unit_roots = [C_UNIT, C_UNIT, C_UNIT, C_TRANSPORT, C_ROTATOR, C_DEU, C_DEFU, C_THREE, C_COOL]
+        if rng.random() < 0.3:
+            # a history with real (solvable) roll passes: they cost ~10 ms per solve, the synthetic units ~1 ms
+            unit_roots += [C_TWO, C_TWO, C_TWO, C_TWO]
+        pr = real.pr
+        # kinds of library units that are not mixed in one class (their constructors / solutions do not combine):
+        # a roll pass class combines only with plain Unit classes, DeformationUnit / DiskElementUnit ones and mix-ins
+        heavy = (pr.PassSequence, pr.Transport, pr.Rotator)
+
+        def compatible(bs):
+            cl = [real.classes[b] for b in bs]
+            if any(real.is_rollpass_class(c) for c in cl):
+                if any(_sub(c, h) for c in cl for h in heavy):
+                    return False
+                if any(_sub(c, pr.TwoRollPass) for c in cl) and any(_sub(c, pr.ThreeRollPass) for c in cl):
+                    return False
+            return True
+
+        def fresh_profile():
+            ks = [k for k, d in enumerate(real.named_deformed) if not d]
+            if ks and rng.random() < 0.6:
+                return rng.choice(ks)
+            do(("newprof",))
+            return len(real.named) - 1
+
+        def toggle(u):
+            do(("setflag", u, int(not real.uflag[u])))
+            cnt("setflag")
+
         n_ops += len(ops)
         while len(ops) < n_ops:
             r = rng.random()
             made = [i for i, ci in enumerate(real.cinfo) if ci["made"]]
             unitcls = [i for i in made if real.is_unit_class(real.classes[i])]
-            leafcls = [i for i in unitcls if not _sub(real.classes[i], real.pr.PassSequence)]
-            seqcls = [i for i in unitcls if real.classes[i].__init__ is real.pr.PassSequence.__init__]
+            leafcls = [i for i in unitcls if not _sub(real.classes[i], pr.PassSequence) and real.solvable(real.classes[i])]
+            passcls = [i for i in leafcls if real.is_rollpass_class(real.classes[i])]
+            seqcls = [i for i in unitcls if real.classes[i].__init__ is pr.PassSequence.__init__]
             if r < 0.22 or not unitcls:
                 # ---- class definition
                 mixin = rng.random() < 0.08
                 if mixin:
                     bases = []
                 else:
-                    pool = unitcls * 3 + unit_roots + [1] + [i for i in made if real.cinfo[i]["mixin"]]
+                    pool = unitcls * 3 + unit_roots + [C_SEQ] + [i for i in made if real.cinfo[i]["mixin"]]
                     bases = []
                     for _ in range(rng.choice([1, 1, 1, 2, 2, 3])):
                         b = rng.choice(pool)
-                        if b not in bases:
+                        if b not in bases and compatible(bases + [b]):
                             bases.append(b)
                     if rng.random() < 0.5:
                         # unit classes first (usual style); otherwise mix-in first
@@ -655,7 +1058,13 @@ def gen_and_run(rng, n_ops, malformed, counter=None):
                 cnt(f"class:bases={len(bases)}")
             elif r < 0.55:
                 # ---- registration on any class (library classes included; mix-ins rarely = AttributeError)
-                pool = unitcls * 4 + [0, 1, 3, 4] + [i for i in made if real.cinfo[i]["mixin"]]
+                pool = unitcls * 4 + [C_UNIT, C_SEQ, C_TRANSPORT, C_ROTATOR] + [i for i in made if real.cinfo[i]["mixin"]]
+                if passcls:
+                    # the bases of the roll pass classes: around the library's own registration on BaseRollPass
+                    pool += [C_UNIT, C_DEU, C_DEFU, C_BRP, C_BRP, C_SRP, C_TWO] * 2
+                else:
+                    # (classes whose walk is only looked at, not solved: rarely)
+                    pool += [rng.choice([C_DEU, C_DEFU, C_BRP, C_SRP, C_TWO, C_THREE, C_COOL])]
                 c = rng.choice(pool)
                 w = rng.choice("ppq")
                 got = do(("reg", w, c, rng.randrange(nf)))
@@ -668,23 +1077,32 @@ def gen_and_run(rng, n_ops, malformed, counter=None):
                     # through the class itself or through one of its subclasses (attribute lookup finds the same list)
                     got = do(("unreg", rr["w"], c, rr["f"]))
                 else:
-                    got = do(("unreg", rng.choice("pq"), rng.choice(unitcls + [0]), rng.randrange(nf)))
+                    got = do(("unreg", rng.choice("pq"), rng.choice(unitcls + [C_UNIT]), rng.randrange(nf)))
                 cnt("unreg:" + got[0][1])
             elif r < 0.64:
-                do(("clear", rng.choice("pq"), rng.choice(unitcls + [0, 1])))
+                # (the library's own registration can be cleared / removed like any other: rarely)
+                do(("clear", rng.choice("pq"), rng.choice(unitcls * 2 + [C_UNIT, C_SEQ, C_UNIT, C_SEQ, C_BRP, C_TWO])))
                 cnt("clear")
             elif r < 0.85:
                 # ---- a leaf unit solved alone (new unit, or again an old one that is not listed in a sequence)
                 free = [u for u in range(len(real.units)) if not real.useq[u] and u not in real.listed]
-                if free and rng.random() < 0.3:
+                if free and rng.random() < 0.35:
                     u = rng.choice(free)
                     cnt("solve:again")
+                    if rng.random() < 0.6:
+                        # the unit's state changed since its last solve: the factories may answer differently now
+                        toggle(u)
                 elif leafcls:
-                    do(("unit", pick_class(leafcls), int(rng.random() < 0.5)))
+                    plain = [c for c in leafcls if c not in passcls]
+                    c = rng.choice(passcls) if passcls and (not plain or rng.random() < 0.3) else pick_class(plain)
+                    do(("unit", c, int(rng.random() < 0.5)))
                     u = len(real.units) - 1
                 else:
                     continue
-                if rng.random() < 0.35:
+                if real.is_rollpass_class(type(real.units[u])):
+                    k = fresh_profile()
+                    cnt("solve:roll-pass")
+                elif rng.random() < 0.35:
                     do(("newprof",))
                     k = len(real.named) - 1
                 else:
@@ -697,16 +1115,31 @@ def gen_and_run(rng, n_ops, malformed, counter=None):
                 if seqs and rng.random() < 0.3:
                     s = rng.choice(seqs)
                     cnt("solve:seq-again")
+                    if rng.random() < 0.5:
+                        toggle(rng.choice(real.members[s] + [s]))
                 elif seqcls and leafcls:
                     subs = []
-                    for _ in range(rng.choice([0, 1, 2, 2, 3])):
-                        do(("unit", pick_class(leafcls), int(rng.random() < 0.5)))
+                    plain = [c for c in leafcls if c not in passcls]
+                    n_sub = rng.choice([0, 1, 2, 2, 3, 3])
+                    at = rng.randrange(n_sub) if n_sub and passcls and rng.random() < 0.25 else -1
+                    for j in range(n_sub):
+                        if j == at:
+                            c = rng.choice(passcls)           # at most one real roll pass per sequence
+                        elif plain:
+                            c = pick_class(plain)
+                        else:
+                            continue
+                        do(("unit", c, int(rng.random() < 0.5)))
                         subs.append(len(real.units) - 1)
                     do(("seq", pick_class(seqcls), int(rng.random() < 0.5), subs))
                     s = len(real.units) - 1
                 else:
                     continue
-                k = rng.randrange(len(real.named))
+                if any(real.is_rollpass_class(type(real.units[m])) for m in real.members[s]):
+                    k = fresh_profile()
+                    cnt("solve:seq-with-roll-pass")
+                else:
+                    k = rng.randrange(len(real.named))
                 do(("solveseq", s, k))
                 cnt("solve:seq")
     finally:
@@ -751,7 +1184,7 @@ def shrink(ops, key):
         changed = False
         rounds += 1
         for i in range(len(ops) - 1, 0, -1):
-            if ops[i][0] not in ("reg", "unreg", "clear", "solve", "solveseq"):
+            if ops[i][0] not in ("reg", "unreg", "clear", "solve", "solveseq", "setflag"):
                 continue
             cand = ops[:i] + ops[i + 1:]
             try:
@@ -775,7 +1208,22 @@ def _facs(spec):
     return ops + [("newprof",)]
 
 
-CORPUS = [
+def _lib5(ops):
+    """histories written when the preamble held only the first five library classes (made classes from id 5)"""
+    m = lambda c: c if c < 5 else c + (M0 - 5)
+    out = []
+    for op in ops:
+        if op[0] == "class":
+            op = ("class", [m(b) for b in op[1]], op[2], op[3])
+        elif op[0] in ("reg", "unreg", "clear"):
+            op = op[:2] + (m(op[2]),) + op[3:]
+        elif op[0] in ("unit", "seq"):
+            op = (op[0], m(op[1])) + op[2:]
+        out.append(op)
+    return out
+
+
+CORPUS = [_lib5(h) for h in [
     # the probe of DESIGN.md: Unit <- A <- B <- C (C defined AFTER the registrations), sibling S of B, a None factory
     _facs([("always", "i"), ("always", "f"), ("always", "i"), ("never", "i"), ("always", "f"), ("always", "i")]) + [
         ("class", [0], "a", False), ("class", [5], "a", False), ("class", [5], "a", False),       # A=5 B=6 S=7
@@ -804,6 +1252,33 @@ CORPUS = [
     _facs([("always", "i"), ("always", "f")]) + [
         ("class", [0], "n", False), ("class", [5], "a", False),                                     # A=5 (swallows), B=6
         ("reg", "p", 5, 0), ("reg", "q", 6, 1), ("unit", 6, 0), ("solve", 0, 0), ("unit", 5, 0), ("solve", 1, 0)],
+]] + [
+    # a factory answers differently at a LATER solve of the same unit (flag factory 1: processor -> nothing, flag factory
+    # 3: nothing -> processor after the flag changed); `resolve_asks_factories_again` in PyrollProps/C18.lean
+    _facs([("always", "i"), ("flag", "f"), ("always", "f"), ("flag", "i")]) + [
+        ("class", [C_UNIT], "a", False), ("class", [M0], "a", False),                              # A=M0, B=M0+1
+        ("reg", "p", C_UNIT, 0), ("reg", "p", M0 + 1, 1), ("reg", "q", C_UNIT, 2), ("reg", "q", M0 + 1, 3),
+        ("unit", M0 + 1, 1), ("solve", 0, 0), ("setflag", 0, 0), ("solve", 0, 0), ("setflag", 0, 1), ("solve", 0, 1)],
+    # members with post-processors inside a sequence: the successor (in-place pre-processor) receives what the
+    # predecessor's post-processors returned, not the predecessor's own outgoing state
+    _facs([("always", "i"), ("never", "i"), ("always", "i"), ("always", "i")]) + [
+        ("class", [C_UNIT], "a", False), ("class", [C_UNIT], "a", False), ("class", [C_SEQ], "a", False),
+        ("reg", "q", M0, 0), ("reg", "q", M0, 1), ("reg", "q", M0, 2), ("reg", "p", M0 + 1, 3),
+        ("unit", M0, 0), ("unit", M0 + 1, 0), ("unit", M0, 0), ("seq", M0 + 2, 0, [0, 1, 2]), ("solveseq", 3, 0),
+        ("solveseq", 3, 1)],
+    # real roll passes K(TwoRollPass), L(K): registrations on the bases of BaseRollPass (Unit, DeformationUnit,
+    # DiskElementUnit) run BEFORE the library's auto-rotator registered on BaseRollPass, those on BaseRollPass (made
+    # later), SymmetricRollPass, TwoRollPass, K, L after it; with and without rotation, alone and inside a sequence,
+    # re-solved after the rotation was switched off / on; `library_rotator_between_base_and_subclass_registrations`
+    _facs([("always", "f"), ("always", "i"), ("always", "f"), ("never", "i"), ("always", "f"), ("flag", "f")]) + [
+        ("class", [C_TWO], "a", False), ("class", [M0], "a", False), ("class", [C_SEQ], "a", False),
+        ("class", [C_TRANSPORT], "a", False),
+        ("reg", "p", C_TWO, 4), ("reg", "p", C_DEFU, 1), ("reg", "p", C_UNIT, 0), ("reg", "p", C_BRP, 2),
+        ("reg", "p", C_DEU, 3), ("reg", "p", M0 + 1, 5), ("reg", "q", C_SRP, 2), ("reg", "q", C_UNIT, 1),
+        ("unit", M0 + 1, 1), ("solve", 0, 0), ("setflag", 0, 0), ("solve", 0, 0), ("setflag", 0, 1), ("solve", 0, 0),
+        ("unit", M0, 0), ("solve", 1, 0),
+        ("unit", M0 + 3, 0), ("unit", M0, 1), ("unit", M0 + 3, 1), ("seq", M0 + 2, 0, [2, 3, 4]), ("solveseq", 5, 0),
+        ("setflag", 3, 0), ("solveseq", 5, 0)],
 ]
 
 
@@ -834,6 +1309,25 @@ def check_library(ctx):
                          "exactly the auto-rotator registered on BaseRollPass")
         if list(cls._yield_post_processors(inst)):
             probs.append(f"{cls.__name__} yields post-processors although none is registered")
+    # every unit class the library defines (nested disk element classes included) yields exactly what the classes
+    # along its MRO hold themselves, bases first - whatever a library class overrides
+    seen = [pr.Unit]
+    todo = [pr.Unit]
+    while todo:
+        for sub in todo.pop().__subclasses__():
+            if sub not in seen and (sub.__module__ or "").startswith("pyroll.core"):
+                seen.append(sub)
+                todo.append(sub)
+    for cls in seen:
+        if inspect.isabstract(cls):
+            continue
+        inst = object.__new__(cls)
+        for name, meth in (("pre_processors", cls._yield_pre_processors), ("post_processors", cls._yield_post_processors)):
+            want = [f for k in reversed(cls.__mro__) for f in (k.__dict__.get(name) or ())]
+            got = list(meth(inst))
+            if [id(x) for x in got] != [id(x) for x in want]:
+                probs.append(f"{cls.__qualname__} yields {name} {[getattr(x, '__name__', '?') for x in got]}, the "
+                             f"classes of its MRO hold (bases first) {[getattr(x, '__name__', '?') for x in want]}")
     ctx.case(["library"], True)
     if probs:
         ctx.violation("library-auto-rotator-scope", probs[0],
@@ -926,7 +1420,7 @@ def _compare(ctx, cases, state):
 def run(ctx):
     import gc
     check_library(ctx)
-    n_cases = ctx.budget(1500, 20000)
+    n_cases = ctx.budget(1500, 17000)      # (thorough: ~11 min; 20000 took 12.8 min with the real roll passes of round 2)
     use_model = getattr(ctx, "model_available", True)
     reported = set()
     state = {"n": 0}
